@@ -1,3 +1,37 @@
-import ViaProofs.Statements
+import ViaProofs.ConnLemmas
+/-
+  C10 — lifecycle events are paired and the server forgets closed connections.
+
+  `C10`: after EVERY history of script operations (accepts with any filter / handshake / endpoint outcome, read and
+  write completions with any error, application actions, late aborted completions, server teardown) on a fresh
+  server, for every connection: connected is signalled at most once, disconnected at most once and only after
+  connected, nothing is signalled after disconnected, and the server's collections hold exactly the connections
+  whose adaptor object is alive (retained = open).  No transition of the model raises: every function is total.
+  Known finding C11-KF1 limits the "exactly once" direction: `close()` / the destructor drop connections without
+  the disconnected event (the invariant therefore states `disconnectedSeen ≤ connectedSeen`).
+-/
 namespace Via
+open Sim
+
+def C10_statement : Prop :=
+  ∀ (serverOptions : List String) (history : List (List String)),
+    let w := history.foldl simOp (mkServer serverOptions)
+    ∀ c ∈ w.conns,
+      c.connectedSeen ≤ 1 ∧ c.disconnectedSeen ≤ c.connectedSeen ∧ c.otherAfterDisc = 0 ∧
+      (c.connectedSeen = 0 → c.inHttp = false) ∧
+      (c.inHttp = true → c.disconnectedSeen = 0 ∧ c.inComms = true) ∧
+      (c.alive = true ↔ c.inComms = true)
+
+theorem C10 : C10_statement := by
+  intro ws hist w c hc
+  obtain ⟨hinv, hset⟩ := history_inv ws hist
+  obtain ⟨h1, h2, h3, h4, h5, h6, h7⟩ := hinv c hc
+  refine ⟨h1, h2, h3, h7, fun h => ⟨(h4 h).2.1, (h4 h).2.2.1⟩, ⟨hset c hc, h5⟩⟩
+
+/-- a connection refused by the connection filter is never created: the world is unchanged but for the log line -/
+theorem C10_filter_reject (w : World) (ws : List String) (hs : w.haveServer = true) (ha : w.acceptorOpen = true)
+    (hf : w.opts.filter = 1) : (opAccept w ws).conns = w.conns := by
+  unfold opAccept
+  simp [hs, ha, hf, World.emit]
+
 end Via
